@@ -59,6 +59,10 @@ func (h *RetryHandler) ExecuteWithRetry(
 		return err
 	}
 
+	// Track whether any part of a response has reached the client, once it has
+	// the request can no longer be handed to another endpoint
+	tracker := &responseTracker{ResponseWriter: w}
+
 	var lastErr error
 	maxRetries := len(endpoints)
 	attemptCount := 0
@@ -76,10 +80,19 @@ func (h *RetryHandler) ExecuteWithRetry(
 		}
 
 		attemptCount++
-		lastErr = h.executeProxyAttempt(ctx, w, r, endpoint, selector, stats, proxyFunc)
+		lastErr = h.executeProxyAttempt(ctx, tracker, r, endpoint, selector, stats, proxyFunc)
 
 		if lastErr == nil {
 			return nil
+		}
+
+		if tracker.started {
+			// Status or body bytes of this attempt were already delivered, retrying
+			// would mix two backend responses into one client response
+			if IsConnectionError(lastErr) {
+				h.markEndpointUnhealthy(ctx, endpoint)
+			}
+			return lastErr
 		}
 
 		if !IsConnectionError(lastErr) {
@@ -92,6 +105,28 @@ func (h *RetryHandler) ExecuteWithRetry(
 	}
 
 	return h.buildFinalError(availableEndpoints, maxRetries, lastErr)
+}
+
+// responseTracker records whether the response has been started (status line or
+// body bytes written). Unwrap keeps http.ResponseController features such as
+// Flush working on the underlying writer.
+type responseTracker struct {
+	http.ResponseWriter
+	started bool
+}
+
+func (t *responseTracker) WriteHeader(statusCode int) {
+	t.started = true
+	t.ResponseWriter.WriteHeader(statusCode)
+}
+
+func (t *responseTracker) Write(b []byte) (int, error) {
+	t.started = true
+	return t.ResponseWriter.Write(b)
+}
+
+func (t *responseTracker) Unwrap() http.ResponseWriter {
+	return t.ResponseWriter
 }
 
 // preserveRequestBody reads and preserves request body for potential retries
